@@ -125,6 +125,46 @@ def match_arms(fi: FuncInfo, ename: str) -> Tuple[Dict[str, ast.match_case], Opt
                 ast.copy_location(arm, fv)
                 ast.fix_missing_locations(arm)
                 arms.setdefault(member(k), arm)
+    # guarded table form:  if self in TABLE: <statements reading TABLE[self]>   – one synthetic arm per key, with TABLE[self] replaced by the
+    # key's value and the names bound by `a, b = TABLE[self]` replaced by the tuple's components
+    for n in walk_no_nested(fi.node):
+        if not (isinstance(n, ast.If) and isinstance(n.test, ast.Compare) and src(n.test.left) == "self" and len(n.test.ops) == 1 and isinstance(n.test.ops[0], ast.In)
+                and isinstance(n.test.comparators[0], ast.Name) and n.test.comparators[0].id in tables):
+            continue
+        tname = n.test.comparators[0].id
+        tb = tables[tname]
+        for k, fv in zip(tb.keys, tb.values):
+            body = [_copy.deepcopy(b) for b in n.body]
+
+            class _T(ast.NodeTransformer):
+                def visit_Subscript(self, nn):
+                    self.generic_visit(nn)
+                    if isinstance(nn.value, ast.Name) and nn.value.id == tname and src(nn.slice) == "self":
+                        return _copy.deepcopy(fv)
+                    return nn
+            body = [_T().visit(b) for b in body]
+            # propagate `a, b = (x, y)` and `a = x` bindings of plain values through the rest of the arm
+            bind: Dict[str, ast.AST] = {}
+            out_body = []
+            for b in body:
+                class _B(ast.NodeTransformer):
+                    def visit_Name(self, nn):
+                        return _copy.deepcopy(bind[nn.id]) if isinstance(nn.ctx, ast.Load) and nn.id in bind else nn
+                b = _B().visit(b)
+                if isinstance(b, ast.Assign) and len(b.targets) == 1 and isinstance(b.targets[0], ast.Tuple) and isinstance(b.value, ast.Tuple) and len(b.targets[0].elts) == len(b.value.elts) \
+                        and all(isinstance(e, ast.Name) for e in b.targets[0].elts):
+                    for e, v_ in zip(b.targets[0].elts, b.value.elts):
+                        bind[e.id] = v_
+                    continue
+                if isinstance(b, ast.Assign) and len(b.targets) == 1 and isinstance(b.targets[0], ast.Name) and isinstance(b.value, (ast.Name, ast.Attribute, ast.Constant)):
+                    bind[b.targets[0].id] = b.value
+                    continue
+                out_body.append(b)
+            # a beta-reduction for lambdas called in place
+            arm = ast.If(test=ast.Constant(value=True), body=out_body or [ast.Pass()], orelse=[])
+            ast.copy_location(arm, n)
+            ast.fix_missing_locations(arm)
+            arms.setdefault(member(k), arm)
     # legacy form: module-level {Enum.Member: lambda params: …} table whose single parameter stands for kwargs
     if not arms:
         for name, val in tables.items():
